@@ -22,9 +22,13 @@ CLAUSE → THEOREM TABLE (review R1; property text in properties.jsonl, id C06; 
   (5) "within each control-feature stratum"                                        `eventOf_some`, `inE_stratum`-based
         selectors `tpr/fpr_event_selects_in_stratum`, `Moments.eo_inE_stratum`, `Cross.dp_event_selects_in_stratum`
   (6) "rows outside the conditioned label class belong to no event"                `eventOf_none_iff`,
-        `index_ignores_no_event_rows`, `no_event_rows_inert`; F3 regression witnesses `asCoded_*`
+        `index_ignores_no_event_rows`, `no_event_rows_inert`; F3 regression witnesses `asCoded_*`;
+        TIE of (5)/(6): `event_rule_lifted` — the rule LIFTED from `_merge_event_and_control_columns` /
+        `_combine_event_and_control` incl. the notnull guard (`MomentsSrc.mergeEvent/combineEvent`; what the driver runs)
+        equals `eventOf`; `lifted_rule_has_guard`
   (7) "bound() is the configured slack on every entry"                             `bound_const`, `config_cases`,
-        `config_ratio_in_range`, `bound_of_config` (difference_bound → eps = difference_bound, ratio 1;
+        `config_ratio_in_range`, `config_slack_nonneg`, `bound_of_config` (`mkConfig` is computed with the constructor
+        branches LIFTED from `UtilityParity.__init__`, incl. the negative-slack guard; difference_bound → eps = difference_bound, ratio 1;
         ratio_bound → eps = ratio_bound_slack, ratio = ratio_bound; neither → 1/100 (lifted), ratio 1)
   (8) "BoundedGroupLoss.gamma is the per-group mean clipped loss"                  `bgl_gamma`, `loss_values` (clipping,
         lo ≤ hi), `loss_in_declared_range`, `evalS_eq_eval`, `eval_container_dependent` (F21), `zero_one_loss`,
